@@ -20,10 +20,10 @@ open SMV.Prov
 
 /-! ## `seen` -/
 
-theorem seen_iff (ex : Exec) (k : Key) : seen ex k = true ↔ ∃ x ∈ ex, x.key = k := by
+theorem seen_iff (ex : Exec) (k : Key × Bool) : seen ex k = true ↔ ∃ x ∈ ex, x.dk = k := by
   simp [seen, List.any_eq_true]
 
-theorem seen_iff_mem_keys (ex : Exec) (k : Key) : seen ex k = true ↔ k ∈ ex.map (·.key) := by
+theorem seen_iff_mem_keys (ex : Exec) (k : Key × Bool) : seen ex k = true ↔ k ∈ ex.map (·.dk) := by
   simp [seen_iff]
 
 /-! ## `insort` -/
@@ -41,7 +41,7 @@ theorem mem_insort (e x : Entry) (ex : Exec) : x ∈ insort e ex ↔ x = e ∨ x
   rw [(insort_perm e ex).mem_iff, List.mem_cons]
 
 theorem insort_keys_perm (e : Entry) (ex : Exec) :
-    ((insort e ex).map (·.key)).Perm (e.key :: ex.map (·.key)) :=
+    ((insort e ex).map (·.dk)).Perm (e.dk :: ex.map (·.dk)) :=
   (insort_perm e ex).map _
 
 /-- `insort` into a priority-sorted executor keeps it sorted -/
@@ -72,7 +72,7 @@ theorem insort_sorted (e : Entry) (ex : Exec) (h : (ex.map (·.prio)).Pairwise (
 
 /-! ## `add` -/
 
-theorem add_of_seen (ex : Exec) (e : Entry) (h : seen ex e.key = true) : add ex e = ex := by
+theorem add_of_seen (ex : Exec) (e : Entry) (h : seen ex e.dk = true) : add ex e = ex := by
   simp [add, h]
 
 theorem mem_add (ex : Exec) (e x : Entry) (h : x ∈ add ex e) : x = e ∨ x ∈ ex := by
@@ -81,7 +81,7 @@ theorem mem_add (ex : Exec) (e x : Entry) (h : x ∈ add ex e) : x = e ∨ x ∈
   · exact Or.inr h
   · exact (mem_insort e x ex).mp h
 
-theorem seen_add_mono (ex : Exec) (e : Entry) (k : Key) (h : seen ex k = true) :
+theorem seen_add_mono (ex : Exec) (e : Entry) (k : Key × Bool) (h : seen ex k = true) :
     seen (add ex e) k = true := by
   unfold add
   split
@@ -89,20 +89,20 @@ theorem seen_add_mono (ex : Exec) (e : Entry) (k : Key) (h : seen ex k = true) :
   · obtain ⟨x, hx, hk⟩ := (seen_iff ex k).mp h
     exact (seen_iff _ k).mpr ⟨x, (mem_insort e x ex).mpr (Or.inr hx), hk⟩
 
-theorem seen_add_self (ex : Exec) (e : Entry) : seen (add ex e) e.key = true := by
+theorem seen_add_self (ex : Exec) (e : Entry) : seen (add ex e) e.dk = true := by
   unfold add
   split
   · assumption
   · exact (seen_iff _ _).mpr ⟨e, (mem_insort e e ex).mpr (Or.inl rfl), rfl⟩
 
-theorem add_keys_nodup (ex : Exec) (e : Entry) (h : (ex.map (·.key)).Nodup) :
-    ((add ex e).map (·.key)).Nodup := by
+theorem add_keys_nodup (ex : Exec) (e : Entry) (h : (ex.map (·.dk)).Nodup) :
+    ((add ex e).map (·.dk)).Nodup := by
   unfold add
   split
   · exact h
   · rename_i hs
     rw [(insort_keys_perm e ex).nodup_iff, List.nodup_cons]
-    exact ⟨fun hm => hs ((seen_iff_mem_keys ex e.key).mpr hm), h⟩
+    exact ⟨fun hm => hs ((seen_iff_mem_keys ex e.dk).mpr hm), h⟩
 
 theorem add_sorted (ex : Exec) (e : Entry) (h : (ex.map (·.prio)).Pairwise (· ≤ ·)) :
     ((add ex e).map (·.prio)).Pairwise (· ≤ ·) := by
@@ -113,14 +113,14 @@ theorem add_sorted (ex : Exec) (e : Entry) (h : (ex.map (·.prio)).Pairwise (· 
 
 /-! ## folding `add` over a list of entries -/
 
-theorem seen_foldl_add_mono (es : List Entry) (ex : Exec) (k : Key) (h : seen ex k = true) :
+theorem seen_foldl_add_mono (es : List Entry) (ex : Exec) (k : Key × Bool) (h : seen ex k = true) :
     seen (es.foldl add ex) k = true := by
   induction es generalizing ex with
   | nil => exact h
   | cons e es ih => exact ih _ (seen_add_mono ex e k h)
 
 theorem seen_foldl_add_mem (es : List Entry) (ex : Exec) (e : Entry) (he : e ∈ es) :
-    seen (es.foldl add ex) e.key = true := by
+    seen (es.foldl add ex) e.dk = true := by
   induction es generalizing ex with
   | nil => cases he
   | cons a es ih =>
@@ -128,7 +128,7 @@ theorem seen_foldl_add_mem (es : List Entry) (ex : Exec) (e : Entry) (he : e ∈
     · exact seen_foldl_add_mono es _ _ (seen_add_self ex e)
     · exact ih _ he'
 
-theorem foldl_add_saturated (es : List Entry) (ex : Exec) (h : ∀ e ∈ es, seen ex e.key = true) :
+theorem foldl_add_saturated (es : List Entry) (ex : Exec) (h : ∀ e ∈ es, seen ex e.dk = true) :
     es.foldl add ex = ex := by
   induction es with
   | nil => rfl
@@ -206,14 +206,14 @@ theorem resolveInto_induct (P : Exec → Prop) (Q : Entry → Prop)
     · rw [he]; exact foldl_add_induct P Q hadd _ (hQ s (by simp) ha) ex h
 
 theorem seen_resolveInto_mono (safe : Bool) (ps : List Provider) (g : Group) (specs : List Spec)
-    (ex : Exec) (k : Key) (h : seen ex k = true) : seen (resolveInto safe ps g ex specs) k = true :=
+    (ex : Exec) (k : Key × Bool) (h : seen ex k = true) : seen (resolveInto safe ps g ex specs) k = true :=
   resolveInto_induct (fun ex => seen ex k = true) (fun _ => True)
     (fun ex e h _ => seen_add_mono ex e k h) safe ps g specs (fun _ _ _ _ _ => trivial) ex h
 
 /-- whatever an active spec builds is keyed after the pass -/
 theorem seen_resolveInto_mem (safe : Bool) (ps : List Provider) (g : Group) (specs : List Spec)
     (ex : Exec) (s : Spec) (hs : s ∈ specs) (ha : Active safe g s) (e : Entry) (he : e ∈ buildSpec ps s) :
-    seen (resolveInto safe ps g ex specs) e.key = true := by
+    seen (resolveInto safe ps g ex specs) e.dk = true := by
   rw [resolveInto_eq]
   induction specs generalizing ex with
   | nil => cases hs
@@ -228,7 +228,7 @@ theorem seen_resolveInto_mem (safe : Bool) (ps : List Provider) (g : Group) (spe
 
 /-- a pass in which every entry that would be built is already keyed is the identity -/
 theorem resolveInto_saturated (safe : Bool) (ps : List Provider) (g : Group) (specs : List Spec)
-    (ex : Exec) (h : ∀ s ∈ specs, Active safe g s → ∀ e ∈ buildSpec ps s, seen ex e.key = true) :
+    (ex : Exec) (h : ∀ s ∈ specs, Active safe g s → ∀ e ∈ buildSpec ps s, seen ex e.dk = true) :
     resolveInto safe ps g ex specs = ex := by
   rw [resolveInto_eq]
   induction specs with
@@ -288,7 +288,7 @@ theorem executor_induct (P : Exec → Prop) (specs : List Spec) (ctor : List Pro
   exact this late (fun _ h => h) _ hctor
 
 theorem seen_lateFold_mono (specs : List Spec) (g : Group) (late : List (List Provider)) (ex : Exec)
-    (k : Key) (h : seen ex k = true) : seen (lateFold specs g late ex) k = true := by
+    (k : Key × Bool) (h : seen ex k = true) : seen (lateFold specs g late ex) k = true := by
   induction late generalizing ex with
   | nil => exact h
   | cons ls late ih =>
@@ -299,7 +299,7 @@ theorem seen_lateFold_mono (specs : List Spec) (g : Group) (late : List (List Pr
 /-- a name spec of the group built against the providers of one late call is keyed afterwards -/
 theorem seen_lateFold_mem (specs : List Spec) (g : Group) (late : List (List Provider)) (ex : Exec)
     (ls : List Provider) (hls : ls ∈ late) (s : Spec) (hs : s ∈ specs) (ha : Active true g s)
-    (e : Entry) (he : e ∈ buildSpec ls s) : seen (lateFold specs g late ex) e.key = true := by
+    (e : Entry) (he : e ∈ buildSpec ls s) : seen (lateFold specs g late ex) e.dk = true := by
   induction late generalizing ex with
   | nil => cases hls
   | cons a late ih =>
